@@ -289,6 +289,12 @@ func (s *snapshotter) processOrphans() error {
 	for _, n := range files {
 		fi, err := s.fs.Stat(s.fs.PathJoin(s.dir, n))
 		if err != nil {
+			if vfs.IsNotExist(err) {
+				// removed since the directory was listed, e.g. by the snapshot
+				// worker of the previous incarnation of this replica when it was
+				// restarted on a running NodeHost. nothing left to clean up.
+				continue
+			}
 			return err
 		}
 		if !fi.IsDir() {
